@@ -54,6 +54,9 @@ func runIns(r *mc.Run, scen string, c *gen.DebCompressor, ins []In, st *mc.Stats
 			return false
 		}
 		vs, obs := Check(scen, *in)
+		if len(obs) == 0 {
+			return false // the process has seen a hang: nothing more is executed
+		}
 		st.Evals += int64(len(obs))
 		st.Transitions += int64(len(obs))
 		st.States++
@@ -119,6 +122,10 @@ func Run(r *mc.Run) {
 	r.Extra["encodings_not_covered"] = c.Unavailable()
 	r.Extra["map_orders"] = MapOrderNote
 
+	// ---- scenario 0 (first, and on ONE worker, so that what it reports does not depend on what other workers do):
+	// two / three Debs alive at the same time, every interleaving of their load / read / close steps
+	interleaved(r, c, comps)
+
 	dpkgCross(r, c, ps, dfs, comps)
 
 	// ---- scenario 1: the full product
@@ -139,14 +146,18 @@ func Run(r *mc.Run) {
 	r.Scenario("matrix-6x6", map[string]interface{}{
 		"compressions": comps, "control_entry_lists": controlEntrySets, "paragraph_models": []string{"minimal", "full", "custom"},
 		"data_file_sets": []string{"empty", "one file", "dir + file with binary bytes + empty file"}, "extras": extras, "layouts": []string{"canonical", "data-before-control"},
+		"quick_thinning": "quick: paragraph x data-set product in full only without extra member and in canonical layout; paired (i,i) otherwise; thorough: full product",
 		"loads_per_package": map[bool]string{true: "ForEachMapOrder (" + MapOrderNote + ")", false: "2"}[orders],
 	}, len(shards), func(si int, st *mc.Stats) bool {
 		s := shards[si]
 		var ins []In
-		for _, p := range ps {
-			for _, f := range dfs {
+		for pi, p := range ps {
+			for fi, f := range dfs {
 				for _, ex := range extras {
 					for _, lay := range layouts {
+						if r.Quick() && (ex != "" || lay != "") && pi != fi {
+							continue // quick: paragraph x data-set in full for the plain layout, paired (i,i) under extras / other layouts
+						}
 						in := mkIn(p, s.es, f, s.cc, s.dc, ex, lay)
 						in.Orders = orders
 						ins = append(ins, in)
@@ -565,6 +576,9 @@ func dpkgCross(r *mc.Run, c *gen.DebCompressor, ps []paragraph, dfs [][]gen.TarE
 				return true
 			}
 			vs, obs := Check("dpkg-deb-built", in)
+			if len(obs) == 0 {
+				return false
+			}
 			st.Evals += int64(len(obs))
 			st.Traces += int64(len(obs))
 			st.States++
@@ -576,6 +590,109 @@ func dpkgCross(r *mc.Run, c *gen.DebCompressor, ps []paragraph, dfs [][]gen.TarE
 			}
 			if st.WantSample() && i%4 == 1 {
 				st.Sample(sampleOf(in, obs[0]))
+			}
+			return true
+		})
+}
+
+// interleaved runs the several-debs-alive scenario sequentially (one shard).
+func interleaved(r *mc.Run, c *gen.DebCompressor, comps []string) {
+	pk, err := multiPackages(c, comps)
+	if err != nil {
+		r.HarnessError("interleaved-debs: %v", err)
+		return
+	}
+	pairs, triples := pairSchedules(), tripleSchedules()
+	var names []string
+	for _, p := range pk {
+		names = append(names, p.Name)
+	}
+	// triples: the all-same-encoding ones and a few mixed ones
+	idx := func(name string) int {
+		for i, p := range pk {
+			if strings.Contains(p.Name, name) {
+				return i
+			}
+		}
+		return 0
+	}
+	var tri [][3]int
+	for i := range pk {
+		tri = append(tri, [3]int{i, i, i})
+	}
+	z, zc, x, l, g := idx("control=gz data=zst"), idx("control=zst"), idx("control=gz data=xz"), idx("control=gz data=lzma"), idx("control=gz data=gz")
+	tri = append(tri, [3]int{z, g, z}, [3]int{z, zc, z}, [3]int{x, z, l}, [3]int{zc, z, x}, [3]int{g, x, g})
+	r.Scenario("interleaved-debs", map[string]interface{}{"packages": names, "pairs": "all ordered pairs of the packages (incl. the same bytes twice)",
+		"pair_schedules": "all 20 interleavings of two load<read<close chains + entry-by-entry alternation for pairs whose varied member has the same encoding (thorough: all pairs); for the other pairs: the non-overlapping one, the alternation, and every schedule that starts load #0, load #1, read, read (both ordered pairs are enumerated)", "triples": len(tri),
+		"triple_schedules": "all loaded first, 6 read orders x {close at the end, close right after reading} + alternation",
+		"workers":          "1 (sequential, so the result does not depend on concurrent activity)", "step_guard": HangGuard.String()},
+		1, func(_ int, st *mc.Stats) bool {
+			run := func(m MultiIn) bool {
+				if r.Expired() {
+					return false
+				}
+				vs, obs := CheckMulti("interleaved-debs", m)
+				st.Evals += int64(len(m.Ops))
+				st.Transitions += int64(len(m.Ops))
+				st.States++
+				st.Traces += int64(len(obs))
+				st.DistinctNontrivial(m.Name)
+				switch {
+				case obs == nil:
+					st.Class("NO-TERMINATION")
+				case len(vs) > 0:
+					st.Class("some package exposes content that is not its own")
+				default:
+					st.Class("every package exposes its own content")
+				}
+				for _, v := range vs {
+					st.Violate(v)
+				}
+				if st.WantSample() && (st.States%500 == 7 || len(vs) > 0) {
+					st.Sample(map[string]interface{}{"case": m.Name})
+				}
+				return obs != nil
+			}
+			opsText := func(ops []Op) string {
+				var s []string
+				for _, o := range ops {
+					s = append(s, o.String())
+				}
+				return strings.Join(s, ", ")
+			}
+			// pairs that share an encoding of the varied member (same decoder twice) get all 21 schedules, the others
+			// the 6 that keep both Debs alive across a load or a read of the other
+			varied := func(in In) string {
+				if in.Model.ControlComp != "gz" {
+					return in.Model.ControlComp
+				}
+				return in.Model.DataComp
+			}
+			short := [][]Op{pairs[0], pairs[len(pairs)-1]}
+			for _, sch := range pairs {
+				if sch[0].Kind == "load" && sch[0].Pkg == 0 && sch[1].Kind == "load" && sch[2].Kind == "read" && sch[3].Kind == "read" {
+					short = append(short, sch) // load 0, load 1, read x, read y, closes in 2 orders
+				}
+			}
+			for a := range pk {
+				for b := range pk {
+					scheds := short
+					if varied(pk[a]) == varied(pk[b]) || r.Tier == "thorough" {
+						scheds = pairs
+					}
+					for _, sch := range scheds {
+						if !run(MultiIn{Name: fmt.Sprintf("#0=%s, #1=%s: %s", pk[a].Name, pk[b].Name, opsText(sch)), Pkgs: []In{pk[a], pk[b]}, Ops: sch}) {
+							return false
+						}
+					}
+				}
+			}
+			for _, t := range tri {
+				for _, sch := range triples {
+					if !run(MultiIn{Name: fmt.Sprintf("#0=%s, #1=%s, #2=%s: %s", pk[t[0]].Name, pk[t[1]].Name, pk[t[2]].Name, opsText(sch)), Pkgs: []In{pk[t[0]], pk[t[1]], pk[t[2]]}, Ops: sch}) {
+						return false
+					}
+				}
 			}
 			return true
 		})
